@@ -661,7 +661,7 @@ class Served(Family):
     the reference policy of the property: the rules WRITTEN IN THE FILE, the canonical location of whatever content the
     answer carries, and the certificate THIS connection presented."""
     name = "served"
-    quick_n = 480
+    quick_n = 320
     thorough_n = 9000
 
     def setup(self):
